@@ -425,7 +425,7 @@ func c01R4(c *Ctx) {
 				continue
 			}
 			op, x, y, ok := cmpFact(normFact(fact{V: i.Cond, Pol: true}))
-			if ok && op == token.EQL && (isNilConst(y) || isNilConst(x)) {
+			if ok && (op == token.EQL || op == token.NEQ) && (isNilConst(y) || isNilConst(x)) {
 				for _, l := range origins(x, originOpts{}) {
 					if call, idx := callOf(l.V); call != nil && idx == 0 && idIs(side.roles[0].ids...)(calleeID(&call.Call)) {
 						skip = true
@@ -465,7 +465,7 @@ func c01R6(c *Ctx) {
 				continue
 			}
 			op, x, y, ok := cmpFact(normFact(fact{V: i.Cond, Pol: true}))
-			if !ok || op != token.EQL || !isNilConst(y) {
+			if !ok || (op != token.EQL && op != token.NEQ) || !isNilConst(y) {
 				continue
 			}
 			for _, l := range origins(x, originOpts{}) {
@@ -473,6 +473,9 @@ func c01R6(c *Ctx) {
 					fileV = x
 					// non-nil edge
 					start := b.Succs[1]
+					if op == token.NEQ {
+						start = b.Succs[0]
+					}
 					isCloseD := func(in ssa.Instruction, allowDefer bool) bool {
 						ci, ok := in.(ssa.CallInstruction)
 						if !ok {
@@ -672,11 +675,11 @@ func c01R8(c *Ctx) {
 			return
 		}
 		if n, _ := fieldAddrName(st.Addr); n == "sourceFile.Archive" {
-			b, isB := st.Val.(*ssa.BinOp)
-			if isB && b.Op == token.GTR && isConstIntV(0)(b.Y) {
-				if call, _ := callOf(b.X); call != nil && calleeID(&call.Call) == "builtin len" && isFieldLoad("SubFiles")(call.Call.Args[0]) {
-					okFlag = true
-				}
+			if factPositive([]fact{{V: st.Val, Pol: true}}, func(v ssa.Value) bool {
+				call, _ := callOf(v)
+				return call != nil && calleeID(&call.Call) == "builtin len" && isFieldLoad("SubFiles")(call.Call.Args[0])
+			}) {
+				okFlag = true
 			}
 		}
 	})
